@@ -736,6 +736,19 @@ class Data(Field):
                     # already includes the delimiter
                     endswith = b""
 
+                if not isinstance(self.until_marker, bytes) and any(
+                    token in self.until_marker.pattern for token in (
+                        b"^", b"$", b"\\b", b"\\B", b"\\A", b"\\Z", b"(?=",
+                        b"(?!", b"(?<"
+                    )
+                ):
+                    # The delimiter is searched in a slice of the raw data
+                    # (from the begin of the field up to the search buffer
+                    # length): an anchor or a look-around assertion would
+                    # see another context in the middle of the whole string.
+                    # Match anything instead of rejecting what unpack accepts.
+                    endswith = b""
+
                 fragments.append(custom_regexp + endswith, is_literal=False)
 
         return fragments
